@@ -226,6 +226,16 @@ def guard_facts(s):
     for sbb, dt, names, t in switches(b, tm):
         if names is not None or sbb == bb:
             continue
+        # `match n { 0 => .., 1 => .., _ => .. }` on an integer: the arm that dominates the site fixes the value
+        dl = root_local(b, t["discr"]) if t["discr"].get("k") in ("copy", "move") else None
+        ty = b.locals[dl]["ty"] if dl is not None else ""
+        if ty in ("usize", "u64", "u32", "u16", "u8", "isize", "i64", "i32"):
+            d_ = nosite(deep_strip(dt))
+            for v_, tgt in t["targets"]:
+                others = [y[1] for y in t["targets"] if y[0] != v_] + [t["otherwise"]]
+                if tgt not in others and b.dominates(tgt, bb):
+                    facts.add(canon_fact(("Eq", d_, ("const", ty, v_)), True))
+            continue
         f, tr = bool_targets(t)
         c = as_cmp(nosite(deep_strip(dt)))
         if c is None or f is None or tr is None or f == tr:
@@ -282,6 +292,102 @@ def positive_at_construction(F, adt, variant, field):
     return res
 
 
+GRID_PROCESS = "<routee_compass::plugin::input::default::grid_search::plugin::GridSearchPlugin as routee_compass::plugin::input::input_plugin::InputPlugin>::process"
+
+
+def _grid_overlay_site(F, s, recv_ty):
+    """an index into the per-axis option lists (Vec<Vec<Value>> / Vec<Value>) inside the code that builds the children of a
+    grid search: the closure of GridSearchPlugin::process, its closures and any helper extracted from it"""
+    pat = r"^(std::vec::Vec<|\[)(std::vec::Vec<)?serde_json::(value::)?Value"
+    if s["kind"] == "assert" and s["t"].get("msg") == "BoundsCheck":
+        # indexing a slice parameter: the length operand is PtrMetadata of the indexed slice
+        b, bb = s["b"], s["bb"]
+        tys = []
+        for st in b.blocks[bb]["stmts"]:
+            if st["k"] == "assign" and st["rv"]["k"] == "un" and st["rv"].get("op") == "PtrMetadata":
+                op = st["rv"]["a"]
+                if op["k"] in ("copy", "move"):
+                    tys.append(re.sub(r"^((&('\w+ )?(mut )?)|(\*const )|(\*mut ))+", "", op.get("ty") or b.locals[op["place"]["l"]]["ty"]).strip())
+        if not tys or not all(re.match(pat, ty) for ty in tys):
+            return False
+    elif s["kind"] != "index" or not s["what"].endswith("::index"):
+        return False
+    elif not re.match(pat, recv_ty):
+        return False
+    tree = {b_.path for b_ in tree_of(F, GRID_PROCESS)} if GRID_PROCESS in F.bodies else set()
+    return s["fn"] in tree and s["fn"] != GRID_PROCESS
+
+
+def json_object_provenance(F, body, raw, depth=0):
+    """why the serde_json::Value denoted by the (raw, site-carrying) term is known to be an object, or None:
+    built as Value::Object, json!(Map), a clone of such a value, a closure capture or a new helper's parameter whose every
+    actual is one"""
+    if depth > 5:
+        return None
+    t = raw
+    while t[0] == "mut":
+        t = t[1]
+    if t[0] == "phi":
+        rs = [json_object_provenance(F, body, a, depth + 1) for a in t[1]]
+        return rs[0] if rs and all(rs) else None
+    if t[0] == "agg" and t[1] == "serde_json::value::Value":
+        return "built as Value::Object" if t[2] == "Object" else None
+    if t[0] == "call":
+        key = t[1].split("{")[0]
+        if key.startswith("serde_json::value::to_value") and len(t) > 3 and isinstance(t[3], int):
+            term = body.blocks[t[3]]["term"]
+            if term["k"] == "call" and re.search(r"serde_json::(map::)?Map<", term["args"][0].get("ty", "")):
+                return "json!(map): a Map serialises to Value::Object"
+            return None
+        if re.search(r"Result::<T, E>::(unwrap|expect)$|Clone>?::clone$|::to_owned$", key) and t[2]:
+            return json_object_provenance(F, body, t[2][0], depth + 1)
+        return None
+    if t[0] == "field" and t[1] == ("arg", 1) and body.kind == "closure" and str(t[2]).isdigit():
+        par = body.path.rsplit("::{closure", 1)[0]
+        pb = F.bodies.get(par)
+        if pb is None:
+            return None
+        ptm = Terms(pb)
+        for pbb, blk in enumerate(pb.blocks):
+            for pos, st in enumerate(blk["stmts"]):
+                if st["k"] == "assign" and st["rv"]["k"] == "agg" and st["rv"].get("agg") == "closure" and st["rv"].get("closure") == body.path:
+                    r = json_object_provenance(F, pb, ptm.operand(st["rv"]["fields"][int(t[2])], pbb, pos), depth + 1)
+                    return ("captured: " + r) if r else None
+        return None
+    if t[0] == "arg" and body.kind != "closure" and known_functions() and body.path not in known_functions():
+        # a parameter of a helper that did not exist when the rules were written: every call site must pass an object
+        rs = []
+        for q, qb in F.bodies.items():
+            for c in qb.calls():
+                if c.callee == body.path and len(c.args) >= t[1]:
+                    rs.append(json_object_provenance(F, qb, Terms(qb).operand(c.args[t[1] - 1], c.bb), depth + 1))
+        return ("every caller passes: " + rs[0]) if rs and all(rs) else None
+    return None
+
+
+MULTISET_MOD = "routee_compass_core::util::multiset::"
+
+
+def _odometer_site(s, args):
+    """Bounds of the indexing inside the mixed-radix iterator rest on its data-structure invariant, not on a guard next to the
+    site: pos, final_pos and sets have equal lengths (MultiSet::from, C17.R3 from:*), indices are the loop variable of a range
+    over 0..sets.len() or the paired element of a positional walk over those vectors, and pos[i] <= final_pos[i] = len_i - 1 is
+    preserved by the step function (C17.R3 next:*: every comparison and store of the step is at [idx] of pos/final_pos, the
+    emitted combination is sets[i][pos[i]] position by position).  Those rules run below (odometer-group:*), so the discharge
+    holds for whichever function of the module the indexing sits in.  Only index expressions of those two kinds qualify."""
+    kind, t = s["kind"], s["t"]
+    is_loop_var = lambda x: x[0] == "call" and re.search(r"ops::Range<.*>>::next$|range::.*::next$", x[1]) is not None and contains(x, lambda q: q[0] == "agg" and q[1].endswith("ops::Range") and dict(q[3]).get("start") == ("const", "usize", 0))
+    is_elem = lambda x: (x[0] == "field" and x[1] in (("arg", 2), ("arg", 3))) or x in (("arg", 2), ("arg", 3))
+    why = "odometer group: index over 0..sets.len() / positional element into equal-length vectors with pos[i] <= final_pos[i] = len_i - 1 (C17.R3 re-checked below)"
+    if kind == "index" and len(args) >= 2 and (is_loop_var(args[1]) or is_elem(args[1])):
+        return why
+    if kind == "assert" and t.get("msg") == "BoundsCheck" and len(args) >= 1 and any(is_loop_var(a) or is_elem(a) for a in args[:1]):
+        return why
+    if kind == "assert" and t.get("msg") == "Overflow" and t.get("op") == "Sub" and len(args) == 2 and args[1] == ("const", "usize", 1) and args[0][0] == "call" and args[0][1].endswith("::len") and innermost_loop(s["b"], s["bb"]) is not None:
+        return "odometer group: len - 1 inside `for idx in 0..len`, whose body runs only when len >= 1"
+    return None
+
+
 def discharge(F, s, ctxinfo):
     """returns a reason string or None"""
     kind, what, b, bb, t, tm = s["kind"], s["what"], s["b"], s["bb"], s["t"], s["tm"]
@@ -290,6 +396,13 @@ def discharge(F, s, ctxinfo):
     # --- interpolation group
     if INTERP + "interp::" in fn or fn.startswith("<" + INTERP + "interp::") or fn == INTERP + "utils::find_nearest_index":
         return "interpolation group: only entered through InterpolationSpeedGradeModel::predict with the point clamped into the validated grid (C14.R1/R4/R5 run below); axes with >= 2 points are configuration"
+    if kind == "assert" and t.get("msg") == "BoundsCheck" and _grid_overlay_site(F, s, ""):
+        return "grid-search overlay group: option_lists[axis][choice] on a slice parameter (see the Index form of the same rule)"
+    # --- odometer group (util::multiset): the step function and its helpers
+    if MULTISET_MOD in fn:
+        r = _odometer_site(s, args)
+        if r:
+            return r
     if kind == "assert":
         msg = t.get("msg")
         op = t.get("op")
@@ -313,6 +426,12 @@ def discharge(F, s, ctxinfo):
                         return "length/index + %s: collection lengths are bounded by isize::MAX" % c[2]
                     if not contains(a, lambda q: q[0] == "call" and re.search(r"(Value::as_\w+|get_config\w*|::parse|from_str)", q[1])):
                         return "count + %s: the operand counts loop turns / items in memory, never a number read from the query" % c[2]
+            return None
+        if msg == "Overflow" and op == "Mul":
+            a, c = args[0], args[1]
+            for x, y in ((a, c), (c, a)):
+                if x[0] == "const" and isinstance(x[2], int) and 0 <= x[2] <= 2 and y[0] == "call" and re.search(r"::len$", y[1]) and (t.get("a") or {}).get("ty", "") == "usize":
+                    return "%d * len: collection lengths are bounded by isize::MAX, twice that fits usize" % x[2]
             return None
         if msg == "Overflow" and op == "Sub":
             a, c = args[0], args[1]
@@ -375,48 +494,20 @@ def discharge(F, s, ctxinfo):
                 return "lock().unwrap(): poisoned only after another thread already panicked"
         return None
     if kind == "index":
-        recv_ty = t["args"][0].get("ty", "")
-        if "serde_json::value::Value" in recv_ty or "serde_json::Value" in recv_ty:
+        recv_ty = re.sub(r"^(&('\w+ )?(mut )?)+", "", t["args"][0].get("ty", "").strip()).strip()
+        if recv_ty in ("serde_json::value::Value", "serde_json::Value"):
             if what.endswith("::index") or re.search(r"Index<I>.*::index$", what):
                 return "Index on serde_json::Value never panics (yields Null)"
             # IndexMut with a string key: needs an object (or null)
             recv = args[0]
-            if recv[0] == "agg" and recv[1] == "serde_json::value::Value" and recv[2] == "Object":
-                return "IndexMut on a value built as Value::Object in this function"
-            if contains(recv, lambda q: q[0] == "agg" and q[1] == "serde_json::value::Value" and q[2] == "Object") and recv[0] in ("agg", "phi"):
-                return "IndexMut on a value built as Value::Object in this function"
             if fn in ctxinfo["output_process_impls"] and recv == ("arg", 2):
                 return "IndexMut on the `output` of OutputPlugin::process: an object on entry (create_initial_output builds json!({..})) and no plugin replaces it wholesale (checked: R1.output-stays-object)"
-            if recv[0] == "field" and recv[1] == ("arg", 1) and b.raw.get("kind") == "closure":
-                # a captured value: look at what the parent put into that capture slot
-                par = fn.rsplit("::{closure", 1)[0]
-                pb = F.bodies.get(par)
-                if pb is not None:
-                    for pbb, blk in enumerate(pb.blocks):
-                        for pos, st in enumerate(blk["stmts"]):
-                            if st["k"] == "assign" and st["rv"]["k"] == "agg" and st["rv"].get("agg") == "closure" and st["rv"].get("closure") == fn:
-                                capop = st["rv"]["fields"][int(recv[2])]
-                                l = root_local(pb, capop)
-                                ds = [d for d in pb.defs.get(l, []) if not d[2]] if l is not None else []
-                                if len(ds) == 1 and ds[0][1] == "term":
-                                    pt = pb.blocks[ds[0][0]]["term"]
-                                    k2 = callee_key(pt["func"]) or ""
-                                    if k2.startswith("std::result::Result::<T, E>::unwrap") or k2.startswith("serde_json::value::to_value"):
-                                        # json!(map): to_value(Map).unwrap()
-                                        src = pt
-                                        if k2.startswith("std::result::Result"):
-                                            l2 = root_local(pb, pt["args"][0])
-                                            d2 = [d for d in pb.defs.get(l2, []) if not d[2]]
-                                            src = pb.blocks[d2[0][0]]["term"] if len(d2) == 1 and d2[0][1] == "term" else None
-                                        if src is not None and (callee_key(src["func"]) or "").startswith("serde_json::value::to_value") and re.search(r"serde_json::(map::)?Map<", src["args"][0].get("ty", "")):
-                                            return "IndexMut on a clone of the captured json!(Map) (a Map serialises to Value::Object)"
-            raw = raw_def_call(s, t["args"][0])
-            if recv[0] == "call" and recv[1].startswith("serde_json::value::to_value"):
-                if raw:
-                    aty = raw[1]["args"][0].get("ty", "")
-                    if re.search(r"serde_json::(map::)?Map<", aty):
-                        return "IndexMut on json!(map): a Map serialises to Value::Object"
+            why = json_object_provenance(F, b, tm.operand(t["args"][0], bb))
+            if why:
+                return "IndexMut on a JSON object: " + why
             return None
+        if _grid_overlay_site(F, s, recv_ty):
+            return "grid-search overlay group: option_lists[axis][choice] with axis < keys.len() == option_lists.len() (the per-axis vectors are pushed together, C17.R1 aligned:* below) and choice drawn from 0..option_lists[axis].len() by the odometer (index lists built as 0..len of the same array; C17.R3 below)"
         idx = args[1] if len(args) > 1 else None
         coll = args[0]
         if idx is not None:
@@ -464,6 +555,18 @@ def discharge(F, s, ctxinfo):
             if n[0] == "const":
                 return "constant capacity"
             return None
+        if what in ("std::vec::Vec::<T, A>::remove", "std::vec::Vec::<T, A>::swap_remove"):
+            i_ = args[1]
+            if i_[0] == "const" and isinstance(i_[2], int):
+                for f in guard_facts(s):
+                    sides = [f[1], f[2]]
+                    lens = [x for x in sides if x[0] == "call" and re.search(r"::len$", x[1]) and unmut_all(x[2][0]) == args[0]]
+                    consts = [x for x in sides if x[0] == "const" and isinstance(x[2], int)]
+                    if lens and consts:
+                        n_ = consts[0][2]
+                        if (f[0] == "Eq" and n_ > i_[2]) or (f[0] == "Lt" and f[1] == consts[0] and n_ >= i_[2]) or (f[0] == "Le" and f[1] == consts[0] and n_ > i_[2]):
+                            return "remove(%d) under the guard len %s %d" % (i_[2], {"Eq": "==", "Lt": ">", "Le": ">="}[f[0]], n_)
+            return None
         if what in ("std::vec::Vec::<T, A>::insert", "std::string::String::insert", "std::string::String::insert_str"):
             if args[1] == ("const", "usize", 0):
                 return "insert at index 0 is valid for every length"
@@ -502,12 +605,6 @@ audited("TerminationModel::terminate_search|assert:Overflow:Add|arg4; 1", BYC + 
 
 
 audited("EdgeRtreeRecord@PointDistance::distance_2::{closure#0}|panic-call:panic_fmt|", CFG + "`empty linestring in geometry file`: an empty geometry row in the edge geometry file; independent of the query (the tolerance path reports the same condition as an Err)")
-audited("MultiSet@Iterator::next|index:index|arg1.pos; range::next", BYC + "next_pos[idx], idx in 0..sets.len(): pos is Some(vec![0; sets.len()]) or a same-length successor (MultiSet::from / next are the only writers)")
-audited("MultiSet@Iterator::next|index:index|arg1.final_pos; range::next", BYC + "final_pos[idx], idx in 0..sets.len(): final_pos = sets.iter().map(..).collect() has sets.len() entries")
-audited("MultiSet@Iterator::next|index:index_mut|arg1.pos; range::next", BYC + "next_pos[idx] += 1 with idx in 0..sets.len() (see above)")
-audited("MultiSet@Iterator::next|assert:Overflow:Sub|Vec::len(arg1.sets); 1", BYC + "sets.len() - 1 is evaluated inside `for idx in 0..sets.len()`, whose body runs only when sets.len() >= 1")
-audited("MultiSet@Iterator::next::{closure#0}|index:index|arg1.0; arg2.1", BYC + "sets[i] with i from zip(0..sets.len())")
-audited("MultiSet@Iterator::next::{closure#0}|index:index|::index(arg1.0, arg2.1); arg2.0", BYC + "sets[i][j] with j = pos[i] <= final_pos[i] = sets[i].len() - 1; pos is Some only when no set is empty (MultiSet::from) and next() never steps past final_pos")
 
 
 def lookup_audit(key):
@@ -580,6 +677,40 @@ def R1_inventory(ctx):
     R1_clamp(ctx)
     R4_rejection(ctx)
     R5_index_search(ctx)
+    # odometer group: the invariant its sites were discharged with (C17.R3), as obligations of this property
+    okr, why = _rc_multiset_next(F, None)
+    ctx.check(okr, "odometer-group:invariant", "the data-structure invariant the indexing in util::multiset relies on is not re-established by the step function: %s" % why, None, detail="C17.R3 transition-system rule", rule="C12.R1")
+    # grid-search overlay group: the alignment invariant its sites were discharged with (C17.R1)
+    import importlib
+    c17 = importlib.import_module("props.C17")
+
+    class _Shim17:
+        def __init__(self):
+            self.F = F
+            self.failed = []
+
+        def check(self, ok, inst, msg, where=None, detail=None, rule=None):
+            if not ok and (inst.startswith("aligned:") or inst.startswith("axis:") or inst in ("three-aligned-vectors", "all-combinations", "empty-axis=>Err")):
+                self.failed.append("%s: %s" % (inst, msg[:160]))
+            return ok
+
+        def bad(self, inst, msg, where=None, rule=None):
+            self.failed.append("%s: %s" % (inst, msg[:160]))
+
+        def ok(self, *a, **k):
+            pass
+
+        def rule(self, *a, **k):
+            pass
+
+    sh17 = _Shim17()
+    try:
+        c17.R1_plugin(sh17)
+    except Exception as e_:
+        sh17.failed.append("C17.R1 could not be evaluated: %r" % (e_,))
+    ctx.check(not sh17.failed, "grid-overlay-group:invariant", "the alignment of keys / option lists / index lists that the indexing in the grid-search overlay relies on does not hold: %s" % (sh17.failed[:1],), None, detail="C17.R1 aligned vectors", rule="C12.R1")
+    users = {p for p in reach for q in F.callees_of(F.bodies[p]) if MULTISET_MOD in q and MULTISET_MOD not in p}
+    ctx.check(all("grid_search" in u for u in users), "odometer-group:single-user", "the mixed-radix iterator is used on the query path by %s" % sorted(short_fn_name(u) for u in users), None, detail="only the grid search plugin", rule="C12.R1")
 
 
 
@@ -592,7 +723,7 @@ FINITE_ITER_TOKEN = re.compile(
     r"^(std::slice::(Iter|IterMut|Windows|Chunks\w*|RChunks\w*|Split\w*)|std::vec::(IntoIter|Drain)|std::ops::(Range|RangeInclusive)|std::iter::(Zip|Enumerate|Map|Rev|Filter|FilterMap|Flatten|FlatMap|Take|Skip|TakeWhile|SkipWhile|Peekable|Chain|Cloned|Copied|StepBy|Inspect|Fuse|MapWhile|Scan|Once|Empty)"
     r"|std::collections::hash_map::(Iter|IterMut|Keys|Values|ValuesMut|IntoIter|Drain|IntoKeys|IntoValues)|std::collections::hash_set::(Iter|IntoIter|Drain)|std::collections::btree_map::\w+|std::collections::btree_set::\w+|std::collections::vec_deque::\w+"
     r"|serde_json::map::(Iter|IterMut|Keys|Values|ValuesMut|IntoIter)|std::str::(Chars|CharIndices|Lines|Split\w*|Bytes)|std::option::(Iter|IntoIter)|std::result::(Iter|IntoIter)"
-    r"|itertools::\S+|rstar::algorithm::nearest_neighbor::\w+|std::alloc::Global|std::std::Global|std::marker::PhantomData)$"
+    r"|itertools::\S+|rstar::algorithm::nearest_neighbor::\w+|geo_types::geometry::line_string::(PointsIter|CoordinatesIter)|std::alloc::Global|std::std::Global|std::marker::PhantomData)$"
 )
 INFINITE_ITER_TOKEN = re.compile(r"^(std::iter::(Repeat|RepeatWith|Cycle|FromFn|Successors|RepeatN)|std::ops::(RangeFrom|RangeFull)|std::sync::mpsc::\w+)$")
 _TOK = re.compile(r"[A-Za-z_][\w]*(?:::[A-Za-z_][\w]*)+")
@@ -734,8 +865,12 @@ def _rc_multiset_next(F, nb):
         def ok(self, *a, **k):
             pass
 
+        def rule(self, *a, **k):
+            pass
+
     sh = Shim()
-    c17.odometer_next(sh, F)
+    # the whole rule: MultiSet::from (equal lengths, final = len - 1, None when a set is empty) and the step function
+    c17.R3_odometer(sh)
     if sh.failed:
         return False, sh.failed[0]
     return True, "mixed-radix step function re-checked (C17.R3)"
